@@ -530,6 +530,7 @@ func RunAmountCase(c AmtCase) ([]AmtLine, error) {
 	}
 	reset := AmtLine{Line: Line{Case: c.N, Reset: true, St: st0, Ev: []EvObs{}}, Reads: rd0, Via: c.Via}
 	reset.Op.Norm()
+	reset.Line.Norm()
 	lines := []AmtLine{reset}
 	ctx := context.Background()
 	for _, op0 := range c.Ops {
@@ -562,7 +563,9 @@ func RunAmountCase(c AmtCase) ([]AmtLine, error) {
 		rec := op
 		rec.API = "v2"
 		rec.Script = false
-		lines = append(lines, AmtLine{Line: Line{Case: c.N, Op: rec, Res: res, St: st, Ev: evs}, Reads: rd, Via: c.Via})
+		al := AmtLine{Line: Line{Case: c.N, Op: rec, Res: res, St: st, Ev: evs}, Reads: rd, Via: c.Via}
+		al.Line.Norm()
+		lines = append(lines, al)
 	}
 	if u := env.PG.UnsupportedSeen(); len(u) > 0 {
 		return nil, &Inconclusive{Msg: fmt.Sprintf("unsupported SQL in pgmodel: %v", u)}
